@@ -208,12 +208,41 @@ def for_loops(node):
     return out
 
 
-def enumerate_index(pat, iter_expr):
-    """If the loop is `for (i, x) in <base>.iter().enumerate()` return (i, x, base-expression)."""
-    it = hirq.strip(iter_expr)
+def single_lets(fn_hir_body):
+    """name -> init expression for locals bound by exactly one `let` and never re-assigned"""
+    inits, count, assigned = {}, {}, set()
+    for n in hirq.walk(fn_hir_body):
+        if n["e"] == "let" and n["pat"].get("p") == "bind" and n.get("init") is not None:
+            nm = n["pat"]["name"]
+            count[nm] = count.get(nm, 0) + 1
+            inits[nm] = n["init"]
+        elif n["e"] in ("assign", "assignop"):
+            l = hirq.strip(n["lhs"])
+            if l.get("e") == "path" and "local" in l:
+                assigned.add(l["local"])
+    return {k: v for k, v in inits.items() if count[k] == 1 and k not in assigned}
+
+
+def enumerate_index(pat, iter_expr, with_adaptors=False, lets=None):
+    """If the loop is `for (i, x) in <base>.iter()[.adaptor()]*.enumerate()` return (i, x, base-expression[, adaptors]).
+    Locals bound once by `let` are looked through."""
+    lets = lets or {}
+
+    def look(e):
+        e = hirq.strip(e)
+        seen = 0
+        while e.get("e") == "path" and e.get("local") in lets and seen < 5:
+            e = hirq.strip(lets[e["local"]])
+            seen += 1
+        return e
+    it = look(iter_expr)
     if not (it.get("e") == "mcall" and it.get("name") == "enumerate" and (it.get("def") or "").endswith("Iterator::enumerate")):
         return None
-    inner = hirq.strip(it["recv"])
+    inner = look(it["recv"])
+    adaptors = []
+    while inner.get("e") == "mcall" and inner.get("name") not in ("iter", "into_iter", "iter_mut"):
+        adaptors.append(inner.get("name"))
+        inner = look(inner["recv"])
     if inner.get("e") == "mcall" and inner.get("name") in ("iter", "into_iter", "iter_mut"):
         base = hirq.strip(inner["recv"])
     else:
@@ -223,6 +252,10 @@ def enumerate_index(pat, iter_expr):
     i, x = pat["pats"]
     iname = i.get("name") if i.get("p") == "bind" else None
     xname = x.get("name") if x.get("p") == "bind" else None
+    if with_adaptors:
+        return iname, xname, base, adaptors
+    if adaptors:
+        return None
     return iname, xname, base
 
 
@@ -266,15 +299,22 @@ def err3(ctx):
     loops = for_loops(prg.hir["body"])
     outer = inner = None
     for pat, it, body, ln in loops:
-        e = enumerate_index(pat, it)
+        e = enumerate_index(pat, it, with_adaptors=True, lets=single_lets(prg.hir["body"]))
         if not e:
             continue
-        iname, xname, base = e
+        iname, xname, base, adaptors = e
         bn = expr_name(base)
+        which = None
         if bn == ("local", prg.param_names[0]):
             outer = (iname, xname, ln)
+            which = "group"
         elif outer and bn == ("field", ("local", outer[1]), "rule"):
             inner = (iname, xname, ln)
+            which = "line"
+        if which and adaptors:
+            r.report("ERR-3|parse_rule_groups|%s-index-adaptor" % which, fn_loc(prg, ln), prg.path,
+                     "the %s index %r is taken after `.%s()`: it no longer counts positions in the slice that format_rule_error indexes"
+                     % (which, iname, "().".join(reversed(adaptors))))
     if not outer or not inner:
         raise AnchorMissing("parse_rule_groups: the two enumerate loops (groups, group.rule) were not recognised")
     r.inst("parse_rule_groups: group index %r enumerates the RuleGroup slice, line index %r enumerates `%s.rule`" % (outer[0], inner[0], outer[1]),
